@@ -687,14 +687,19 @@ func c40exec(t *testing.T, r *vk.Run, f *c40fam, depth int, ch *vk.Chooser, nth 
 			c40observe(r, id, hist, x, e, m)
 			c40invariants(r, id, hist, e, m)
 			r.Transitions(1)
+			if r.Replaying() && id == r.ReplayCase() {
+				break // the replayed violation was reported at this point of the execution
+			}
 		}
-		for len(ch.Trace()) < c40shardDep {
+		for !r.Replaying() && len(ch.Trace()) < c40shardDep {
 			ch.Choose(1)
 			if ch.Skipped {
 				return
 			}
 		}
-		id = ch.CaseID(f.name)
+		if !(r.Replaying() && id == r.ReplayCase()) {
+			id = ch.CaseID(f.name)
+		}
 		// the client goes away: closing the connection must not panic the serve loop either
 		e.teardown()
 		e.mu.Lock()
